@@ -395,6 +395,10 @@ impl State {
         if self.sig_enabled && self.sig == Sig::Armed && self.threads[0].status != Status::Finished {
             v.push((SIGTID, 0, "SIGINT".into()));
         }
+        // no handler installed (yet): the default action of SIGINT ends the process at once, whatever the threads hold
+        if self.sig_enabled && self.sig == Sig::NotInstalled && self.threads[0].status != Status::Finished {
+            v.push((SIGTID, 1, "SIGINT-default-action".into()));
+        }
         v
     }
 
@@ -507,6 +511,10 @@ impl State {
             self.dump_and_exit("step-limit", 5);
         }
         let (tid, alt, _) = en[chosen].clone();
+        if tid == SIGTID && alt == 1 {
+            self.events.push("sigint-default-kill".into());
+            self.dump_and_exit("killed-by-sigint", 130);
+        }
         if tid == SIGTID {
             self.sig = Sig::Delivered;
             self.events.push("sigint".into());
